@@ -189,13 +189,60 @@ Proof.
 Qed.
 
 (* getSchemaSet + PackageSetFromSourceAPI's naming: the API holds exactly the exported pairs *)
+(* from any API without schemas (the listed packages; after addStructure also empty sub-packages) *)
+Theorem route_all_entries_from api0 X api :
+  api_buckets api0 = [] ->
+  route_all api0 X = ROk api -> NoDup (map fst X) -> Permutation (api_entries api) X.
+Proof.
+  intros Hb H Hnd.
+  assert (He : api_entries api0 = []) by (rewrite api_entries_buckets, Hb; reflexivity).
+  pose proof (route_all_perm X api0 api H Hnd) as Hp. rewrite He in Hp. cbn [app] in Hp. apply Hp.
+  intros k x id x' _ _ Hin. rewrite Hb in Hin. destruct Hin.
+Qed.
+
 Theorem route_all_entries W X api :
   route_all (api_init W) X = ROk api -> NoDup (map fst X) -> Permutation (api_entries api) X.
+Proof. apply route_all_entries_from. apply api_init_buckets. Qed.
+
+(* addStructure files no schema: it only creates (empty) sub-packages of listed packages *)
+Lemma touch_sub_buckets pn subs s : flat_map (sb pn) (touch_sub subs s) = flat_map (sb pn) subs.
 Proof.
-  intros H Hnd.
-  assert (He : api_entries (api_init W) = []) by (rewrite api_entries_buckets, api_init_buckets; reflexivity).
-  pose proof (route_all_perm X (api_init W) api H Hnd) as Hp. rewrite He in Hp. cbn [app] in Hp. apply Hp.
-  intros k x id x' _ _ Hin. rewrite api_init_buckets in Hin. destruct Hin.
+  induction subs as [|[s' l] r IH]; cbn [touch_sub flat_map sb map app]; [reflexivity|].
+  destruct (str_eqb s' s); cbn [flat_map]; [reflexivity|]. rewrite IH. reflexivity.
+Qed.
+
+Lemma put_pkg_touch_buckets api p s :
+  api_buckets api = [] ->
+  api_buckets (put_pkg api p (fun pk => match pk with XPackage pn ind l subs => XPackage pn ind l (touch_sub subs s) end)) = [].
+Proof.
+  unfold api_buckets. induction api as [|[pn ind l subs] r IH]; intros H; cbn [put_pkg flat_map].
+  - cbn [pb map flat_map touch_sub sb app]. reflexivity.
+  - cbn [flat_map] in H. apply app_eq_nil in H as [H1 H2]. cbn [pk_name]. destruct (str_eqb pn p).
+    + cbn [flat_map]. rewrite H2, app_nil_r. unfold pb in *. rewrite touch_sub_buckets. exact H1.
+    + cbn [flat_map]. rewrite H1, IH by exact H2. reflexivity.
+Qed.
+
+Lemma add_service_buckets W api sv api1 :
+  api_buckets api = [] -> add_service W api sv = ROk api1 -> api_buckets api1 = [].
+Proof.
+  intros Hb H. destruct sv as [pkg name kind methods]. cbn [add_service] in H.
+  destruct (split_package pkg) as [[pn [sub|]]|c]; cbn [rbind fst snd] in H; try discriminate.
+  - destruct (negb (existsb (str_eqb pn) W)); [inversion H; subst; exact Hb|].
+    assert (Ht := put_pkg_touch_buckets api pn sub Hb).
+    destruct (has_suffix s_Service name || has_suffix s_Sandbox name).
+    { destruct (all_ok (build_method pkg kind) methods); cbn [rbind] in H; [|discriminate]. inversion H; subst. exact Ht. }
+    destruct (has_suffix s_Events name); [inversion H; subst; exact Ht|].
+    destruct (has_suffix s_Topic name); [|discriminate].
+    destruct (all_ok (build_topic_method pkg) methods); cbn [rbind] in H; [|discriminate]. inversion H; subst. exact Ht.
+  - destruct (negb (existsb (str_eqb pn) W)); [inversion H; subst; exact Hb|discriminate].
+Qed.
+
+Lemma add_structure_buckets W : forall svcs api api1,
+  api_buckets api = [] -> add_structure W api svcs = ROk api1 -> api_buckets api1 = [].
+Proof.
+  induction svcs as [|sv r IH]; intros api api1 Hb H; cbn [add_structure] in H; [inversion H; subst; exact Hb|].
+  destruct (add_service W api sv) as [api2|c] eqn:E; cbn [rbind] in H; [|discriminate].
+  eapply IH; [|exact H]. eapply add_service_buckets; eauto.
 Qed.
 
 (* routing fails exactly when some package name does not split *)
@@ -212,36 +259,45 @@ Qed.
 Definition packages_split (S : sset) : Prop :=
   forall k e, In (k, e) S -> exists id, split_package (fst k) = ROk id.
 
+Theorem structure_files_no_schema W svcs apiS :
+  add_structure W (api_init W) svcs = ROk apiS -> api_entries apiS = [].
+Proof.
+  intros H. rewrite api_entries_buckets, (add_structure_buckets W svcs _ _ (api_init_buckets W) H). reflexivity.
+Qed.
+
 (* the whole of C15 at the level of the API structure: for a descriptor set with distinct split
    names, if APIFromImage succeeds then PackageSetFromSourceAPI on its result succeeds, every schema
    of every package and sub-package is found again under the name it is filed under and exports to
    exactly the same form, nothing else is in the rebuilt set, every reference is resolved *)
-Theorem api_roundtrip D W fs api :
-  wf_keys D -> api_from_image D W fs = Ok api ->
+Theorem api_roundtrip D svcs W fs api :
+  wf_keys D -> api_from_image D svcs W fs = Ok api ->
   exists S', import_packages api = ROk S' /\
     (forall k x, In (k, x) (api_entries api) -> exists r', lookup S' k = Some (Linked r') /\ export_root r' = x) /\
     (forall k, ~ In k (map fst (api_entries api)) -> lookup S' k = None) /\
     refs_resolved S' = true.
 Proof.
-  intros Hwf H. unfold api_from_image, api_of_set in H.
+  intros Hwf H. unfold api_from_image, api_of_set_from in H.
+  destruct (add_structure W (api_init W) svcs) as [apiS|c] eqn:Es; cbn [lift obind] in H; [|discriminate].
+  pose proof (add_structure_buckets W svcs _ _ (api_init_buckets W) Es) as HbS.
   destruct (reflect D fs) as [S| | |] eqn:HS; cbn [obind] in H; try discriminate.
   destruct (reflect_entries_ok D fs S Hwf HS) as (E2 & HndL & HimpL & HclL).
   rewrite E2 in H. cbn [obind] in H.
-  destruct (route_all (api_init W) (export_entries (linked_entries S))) as [api0|c] eqn:Er; cbn [lift] in H; [|discriminate].
+  destruct (route_all apiS (export_entries (linked_entries S))) as [api0|c] eqn:Er; cbn [lift] in H; [|discriminate].
   inversion H; subst api0.
   assert (Hk : NoDup (map fst (export_entries (linked_entries S)))) by (apply export_entries_hyps; assumption).
-  pose proof (route_all_entries W _ api Er Hk) as Hp.
+  pose proof (route_all_entries_from apiS _ api HbS Er Hk) as Hp.
   unfold import_packages. apply (export_import_roundtrip_perm (linked_entries S) _ Hp HndL HimpL HclL).
 Qed.
 
 (* and it does succeed when reflection succeeds and every package name has exactly one version part
    followed by at most one more part *)
-Theorem api_from_image_ok D W fs S :
-  wf_keys D -> reflect D fs = Ok S -> packages_split S -> exists api, api_from_image D W fs = Ok api.
+Theorem api_from_image_ok D svcs W fs S apiS :
+  wf_keys D -> add_structure W (api_init W) svcs = ROk apiS ->
+  reflect D fs = Ok S -> packages_split S -> exists api, api_from_image D svcs W fs = Ok api.
 Proof.
-  intros Hwf HS Hsp. unfold api_from_image, api_of_set. rewrite HS. cbn [obind].
+  intros Hwf Hst HS Hsp. unfold api_from_image, api_of_set_from. rewrite Hst. cbn [lift obind]. rewrite HS. cbn [obind].
   destruct (reflect_entries_ok D fs S Hwf HS) as (E2 & _). rewrite E2. cbn [obind].
-  destruct (route_all_ok (export_entries (linked_entries S)) (api_init W)) as (api & Ha).
+  destruct (route_all_ok (export_entries (linked_entries S)) apiS) as (api & Ha).
   - intros k x Hin. unfold export_entries in Hin. apply in_map_iff in Hin as ([k0 r0] & Hf & H0). cbn [fst snd] in Hf.
     inversion Hf; subst k x. unfold linked_entries in H0. apply in_flat_map in H0 as ([k1 e1] & Hin1 & Hx).
     cbn [fst snd] in Hx. destruct e1 as [|r1]; [destruct Hx|]. destruct Hx as [Hx|[]]. inversion Hx; subst k1 r1.
